@@ -4,12 +4,14 @@ CONSTANTS
   Rejected = {}
   TruncPoints <- TruncAll
   Spellings = {"rel"}
+  Placement = "file"
   Cwds = {"pkg"}
   RecordHist = FALSE
   MaxHist = 0
-  FlagSets <- DefaultFlags
-  EnvActions = {"crash", "extend"}
+  FlagSets <- CrashFlags
+  EnvActions = {"crash", "crashC", "extend"}
 VIEW View
+CONSTRAINT OneTarget
 INVARIANTS TypeOK FrameRest
 PROPERTIES Regenerated ExitIgnoresOut Idempotent
 CHECK_DEADLOCK FALSE
